@@ -166,7 +166,7 @@ def run_shard(args):
         return {'lane': lane_name, 'shard': shard, 'error': ''.join(traceback.format_exception(type(e), e, e.__traceback__))}
 
 
-CASE_TIME_LIMIT = 60          # seconds; normal cases take milliseconds
+CASE_TIME_LIMIT = 30          # seconds; normal cases take milliseconds
 WORKER_MEMORY_LIMIT = 4 << 30  # bytes of address space per worker process
 
 
@@ -318,7 +318,7 @@ def replay_file(mod, path):
     import contextlib
     import io
     with contextlib.redirect_stdout(io.StringIO()):      # the code under test may print
-        v = lane.check(rec['case'])
+        v = guarded(lane.check)(rec['case'])
     return rec, v
 
 
